@@ -132,11 +132,19 @@ impl C06 {
             for c in &scn.cases {
                 w.write_file(&FileSpec { rel: "obs/one_tests.json".into(), bytes: tests_text(std::slice::from_ref(c)), mtime_ns: 0 });
                 let (cl, _o, _e) = self.run1(w, &sv(&["cfn-guard", "test", "-r", &format!("@/{}", scn.rules[ri]), "-t", "@/obs/one_tests.json", "-o", "json"]), &None, rep);
-                let v: String = match cl.as_str() {
+                let mut v: String = match cl.as_str() {
                     "exit:0" => "0".into(),
                     "exit:7" => "7".into(),
                     _ => "E".into(),
                 };
+                // an expectation that is none of PASS / FAIL / SKIP cannot "match the evaluated
+                // status": whatever the one-case run says, such a case is never a success
+                if c.expect.iter().any(|(_, st)| !matches!(st.as_str(), "PASS" | "FAIL" | "SKIP")) {
+                    if v == "0" {
+                        rep.count("reach.misspelt_expectation_observed_as_success", 1);
+                    }
+                    v = "E".into();
+                }
                 if ri == 0 {
                     obs.case.push(v);
                 } else {
@@ -225,6 +233,7 @@ impl C06 {
     fn gen(&self, seed: u64, rep: &mut Report) -> (Workload, Scn6) {
         let mut r = Rng::stream(seed, "workload");
         let mut o = WlOpts::default();
+        o.bad_expectations = true;
         o.gen = GenOpts { functions: r.chance(1, 3), ..Default::default() };
         let wl = gen_workload(&mut r, &o);
         let mut files = Vec::new();
@@ -341,6 +350,14 @@ impl C06 {
             if let Some(t) = files.iter().find(|f| &f.rel == rel).cloned() {
                 files.push(FileSpec { rel: rel.replace("tests/", "dl/tests/r0_"), ..t });
             }
+        }
+        // guard files without any test file, sorting before and after the tested ones: the
+        // command skips them
+        if r.chance(1, 3) {
+            let body = b"rule untested {\n  zz_no_such_key !exists\n}\n".to_vec();
+            files.push(FileSpec { rel: "dl/a0_untested.guard".into(), bytes: body.clone(), mtime_ns: 0 });
+            files.push(FileSpec { rel: "dl/z9_untested.guard".into(), bytes: body, mtime_ns: 0 });
+            rep.count("gen.untested_guard_files_in_dir", 1);
         }
         // a second rules file with its own copies of the test files (same cases)
         if rules.len() > 1 {
